@@ -44,6 +44,9 @@ CHECKS = {
  "C12": ("model-based testing of the data section: proptest-generated SET/DB/DW definition sequences (all four kinds, labels, every radix and OFFSET spellings, lengths and segment totals steered onto the 64 KiB boundary, segments wrapping the 1 MiB space) assembled and loaded, whole 1 MiB image compared with an independently computed image, label offsets and loads through label operands / OFFSET checked in-process and through the CLI (DS=0000 at start)",
          "exploration; 8*10^3 (quick) / 1.6*10^5 (thorough) generated data sections in-process plus a deterministic boundary family (totals 65533..131072, string limits, SET resets) and 3*10^2 / 4*10^3 CLI runs; > 64 KiB per segment must be a diagnostic (no abort, no accepted program)",
          "trusted: reference image/offset computation in the harness; a total of exactly 65536 bytes and strings beyond the assembler's documented single-string limit may be accepted or refused", "3/C12"),
+ "C11": ("round-trip and metamorphic testing of the assembler: proptest-generated programs over all instruction classes are rendered from an AST under two independent random spellings (case per token, radix / negative decimal / OFFSET per constant, separators, line packing, trailing newline); every emitted line is decoded by an independent hand-written reader and compared structurally with the AST item; both spellings must emit identical lists and maps; label renaming and case-variant labels; ';' comments added to CLI programs must not change the run",
+         "exploration; 2.4*10^4 (quick) / 8*10^5 (thorough) programs x 3 assemblies each, every instruction class and operand form of syntax.md is generated (forms from the shared AST strategies), 3*10^2 / 4*10^3 CLI pairs for the comment layer",
+         "trusted: the independent IR reader and the AST normalisation (documented folding: Intel synonyms, XCHG operand order, based-indexed displacement 0, constants modulo operand width); macros are C13's subject", "3/C11"),
 }
 
 REASON_WIP = "check not built yet in this revision of /verif (work in progress; see DESIGN.md section 7 for the order of work)"
